@@ -41,6 +41,33 @@ type JCase struct {
 	AllowPartial  bool `json:"allow_partial"`
 	// a MarshalJSON call that fails, made through the adapter right before the case's own (0 = none)
 	Prelude int `json:"prelude,omitempty"`
+	// > 0: instead of Value, a chain of that many messages nested through the type's first self-recursive field
+	Deep int `json:"deep,omitempty"`
+}
+
+// deepChain builds a message nested depth levels through the first singular field whose type is the message itself.
+func deepChain(md protoreflect.MessageDescriptor, depth int) *dynamicpb.Message {
+	var rec protoreflect.FieldDescriptor
+	for i := 0; i < md.Fields().Len(); i++ {
+		if fd := md.Fields().Get(i); fd.Message() == md && !fd.IsList() && !fd.IsMap() && fd.ContainingOneof() == nil {
+			rec = fd
+			break
+		}
+	}
+	if rec == nil {
+		return nil
+	}
+	root := dynamicpb.NewMessage(md)
+	fillRequired(root, 2)
+	cur := root
+	for i := 0; i < depth; i++ {
+		next := dynamicpb.NewMessage(md)
+		fillRequired(next, 2)
+		cur.Set(rec, protoreflect.ValueOfMessage(next))
+		cur = next
+	}
+	fillOne(cur)
+	return root
 }
 
 // jsonPreludes: messages the JSON writers of the three runtimes refuse, some of them only after part of the
@@ -133,6 +160,11 @@ func oracleC18(c *JCase) (fail *ev.Failure) {
 	}()
 	rt := runtimes[mt.Info.Runtime]
 	dyn := decodeRef(mt.Desc, c.Value)
+	if c.Deep > 0 {
+		if dyn = deepChain(mt.Desc, c.Deep); dyn == nil {
+			return nil
+		}
+	}
 	m := mt.New()
 	FromDynamic(dyn, m)
 	if c.Prelude > 0 && c.Prelude < len(jsonPreludes) {
@@ -389,7 +421,7 @@ func jsonTypes() []*MsgType {
 	return out
 }
 
-const ruleC18 = "case = (message type of the corpus for gogo / Google v1 (legacy) / Google v2, plain and fast-marshal; value incl. enums, 64-bit integers, bytes, maps, oneofs, well-known types as fields and - Value (every kind incl. null), Struct, ListValue, Timestamp, wrappers of Google v2 and gogo - as top-level messages; the 2^3 marshal option combinations; indent in {\"\", \" \", \"  \", \"\\t\", \" \\t\"}; JSON with/without an injected unknown key x AllowUnknownFields; JSON with/without a required field - the message's own or one of a child, incl. proto2 children of a proto3 message - x AllowPartialMessages (Google v2); 1 in 3 right after a MarshalJSON call that the runtime refuses (out-of-range Timestamp / Duration, also as a later list element; required field missing in a child)); oracle: json.Valid, adapter round trip == original, the OWNING runtime's JSON decoder accepts the output and decodes the original, structural probes for every option, nil => (nil, nil) (untyped nil and typed nil pointers of every corpus package and of the well-known types that implement json.Marshaler themselves), unmarshal into nil => error; non-trivial = message with >= 1 enum / 64-bit / bytes / map field set and >= 1 option set; distinct by case content"
+const ruleC18 = "case = (message type of the corpus for gogo / Google v1 (legacy) / Google v2, plain and fast-marshal; value incl. enums, 64-bit integers, bytes, maps, oneofs, well-known types as fields and - Value (every kind incl. null), Struct, ListValue, Timestamp, wrappers of Google v2 and gogo - as top-level messages; the 2^3 marshal option combinations; indent in {\"\", \" \", \"  \", \"\\t\", \" \\t\"}; JSON with/without an injected unknown key x AllowUnknownFields (also for documents nested 99..400 levels deep through recursive types); JSON with/without a required field - the message's own or one of a child, incl. proto2 children of a proto3 message - x AllowPartialMessages (Google v2); 1 in 3 right after a MarshalJSON call that the runtime refuses (out-of-range Timestamp / Duration, also as a later list element; required field missing in a child)); oracle: json.Valid, adapter round trip == original, the OWNING runtime's JSON decoder accepts the output and decodes the original, structural probes for every option, nil => (nil, nil) (untyped nil and typed nil pointers of every corpus package and of the well-known types that implement json.Marshaler themselves), unmarshal into nil => error; non-trivial = message with >= 1 enum / 64-bit / bytes / map field set and >= 1 option set; distinct by case content"
 
 // ---- well-known types as TOP-LEVEL messages (their JSON form is not an object: null, number, string, array) ----
 
@@ -507,6 +539,21 @@ func TestC18(t *testing.T) {
 	mine := shardTypes(jsonTypes())
 	if len(mine) == 0 {
 		return
+	}
+	// deeply nested documents (recursive types): the adapters have no depth limit of their own
+	for _, mt := range mine {
+		if deepChain(mt.Desc, 1) == nil {
+			continue
+		}
+		for _, depth := range []int{99, 100, 101, 150, 400} {
+			for _, unk := range []bool{false, true} {
+				c := &JCase{Type: mt.Key(), Value: []byte{}, Deep: depth, InjectUnknown: unk, AllowUnknown: true}
+				rec.Eval(1)
+				rec.NonTrivialEnum(1)
+				rec.Class("deeply-nested-document")
+				rec.Check(t, "jcase", c, oracleC18(c))
+			}
+		}
 	}
 	ev.Rapid(t, ev.N(12000, 300000), 18, func(rt *rapid.T) {
 		mt := rapid.SampledFrom(mine).Draw(rt, "type")
